@@ -349,6 +349,7 @@ struct Child {
     stdin: std::process::ChildStdin,
     rx: mpsc::Receiver<String>,
     err: Arc<Mutex<String>>,
+    err_reader: Option<std::thread::JoinHandle<()>>,
 }
 
 fn spawn_worker(stack_mb: u64, mem_mb: u64) -> Child {
@@ -374,7 +375,7 @@ fn spawn_worker(stack_mb: u64, mem_mb: u64) -> Child {
     });
     let err = Arc::new(Mutex::new(String::new()));
     let err2 = err.clone();
-    std::thread::spawn(move || {
+    let err_reader = std::thread::spawn(move || {
         for l in std::io::BufReader::new(stderr).split(b'\n') {
             match l {
                 Ok(l) => {
@@ -392,7 +393,7 @@ fn spawn_worker(stack_mb: u64, mem_mb: u64) -> Child {
             }
         }
     });
-    Child { proc, stdin, rx, err }
+    Child { proc, stdin, rx, err, err_reader: Some(err_reader) }
 }
 
 fn signal_name(s: i32) -> String {
@@ -405,7 +406,9 @@ fn signal_name(s: i32) -> String {
 fn crashed(child: &mut Child) -> (String, String) {
     use std::os::unix::process::ExitStatusExt;
     let st = child.proc.wait().ok();
-    std::thread::sleep(Duration::from_millis(20)); // let the stderr reader finish
+    if let Some(h) = child.err_reader.take() {
+        let _ = h.join(); // the child is gone: its stderr is at EOF, the reader ends
+    }
     let err = child.err.lock().unwrap().clone();
     let mut o = match st.and_then(|s| s.signal()) {
         Some(s) => format!("crash:{}", signal_name(s)),
@@ -575,6 +578,28 @@ const SCALAR_FNS: &[&str] = &["sin", "cos", "tan", "asin", "acos", "atan", "sinh
 const WILD: &[&str] = &["ans", "_", "true", "false", "inf", "NaN", "pi", "τ", "e", "unit_of(1 m)", "value_of(3 km)", "len([1, 2])", "head([1 m])", "tail([1])", "[]", "\"a\"", "str_length(\"ab\")",
     "mod(7, 3)", "atan2(1, 2)", "now()", "random()", "[1, 2] |> sum", "1 |> sin", "mean([1 m, 2 m])", "maximum([1, 2])", "type(1 m)", "chr(65)", "ord(\"a\")", "hex(255)", "range(1, 5)",
     "2 m -> [ft, inch]", "has_unit(1 m, m)", "quantity_cast(1, m)", "cons(1, [])", "str_slice(0, 1, \"ab\")", "datetime(\"2020-01-01\")", "1 m |> round_in(cm)", "assert(true)", "error(\"x\")", "?"];
+/// inputs found by hand probes or reported by other checks: always part of the J inputs (class "seed")
+const SEEDS: &[&str] = &[
+    "((m/cm)^1e30)^1e30", "fn f(x) = x^(2^126) * x^(2^126)", "assert_eq(1 km, 1 m, 0 km)", "assert_eq(1 km, 1 m, 0 m)", "assert_eq(1, 2, 0)",
+    "(if m == m then sqr else sqr)(2)", "(if cm == cm then sqr else sqr)(2)", "(if 1 m == 1 m then sin else cos)(2)", "(sqr)(2 m)",
+    "unit zu = \"\"", "unit zu = [1]", "unit zu = true", "unit zu = sin", "!0^2", "!NaN^2", "sin(inf m)", "inf m -> sin", "exp(NaN s)",
+    "1/0", "0/0", "inf - inf", "NaN == NaN", "0^0", "0^-1", "(-8)^(1/3)", "1e308 * 10", "-1e308 * 10", "2^1024", "2^-1075", "(1e308 m)^2", "(1e-308 m)^2",
+    "1 m -> 0", "1 m -> inf", "1 m -> NaN m", "1 -> 1", "1 m -> 0 m", "mod(1, 0)", "mod(1 m, 0 m)", "gamma(-1)", "gamma(171.7)", "sqrt(-1)", "ln(0)", "ln(-1)", "asin(2)",
+    "round_in(0 m, 1 m)", "floor_in(0 cm, 1 m)", "1 m |> round_in(0 cm)", "trunc_in(inf m, 1 m)", "unit_of(0)", "value_of(inf m)", "head([])", "tail([])", "[] ++ []", "element_at(5, [1])", "element_at(-1, [1])",
+    "range(1, 0)", "range(0, 1e3) |> len", "sum([])", "mean([])", "maximum([])", "str_slice(5, 2, \"ab\")", "str_slice(0, 100, \"ab\")", "str_slice(1, 2, \"äöü\")", "chr(55296)", "chr(1114112)", "chr(-1)", "chr(0.5)", "ord(\"\")",
+    "hex(0.5)", "hex(-1)", "hex(1e30)", "base(1, 5)", "base(37, 5)", "base(0, 5)", "bin(2^64)", "\"{1:>1000}\"", "\"{1:.100f}\"", "\"{1:>999999999999}\"", "\"{1:.999999999999f}\"", "\"{1e300:.50f}\"", "\"{1:x}\"", "\"{1 m:e}\"", "\"{-0:+}\"",
+    "datetime(\"\")", "datetime(\"9999-12-31 23:59:59\") + 1e10 year", "datetime(\"0000-01-01\") - 1e10 year", "from_unixtime(1e300)", "from_unixtime(NaN)", "from_unixtime(-1e300)", "now() + inf s", "now() - now() -> NaN s", "format_datetime(\"%\", now())", "format_datetime(\"%Q%Z%5\", now())",
+    "date(\"2020-02-30\")", "time(\"25:00\")", "calendar_add(now(), 1e30 year)", "now() -> tz(\"Nowhere/Land\")", "now() -> tz(\"\")", "weekday(from_unixtime(-1e17))", "julian_date(from_unixtime(1e17))",
+    "1e30 m -> [ft, inch]", "NaN m -> [m, cm]", "inf m -> [km, m]", "1 m -> [m, m]", "1 m -> []", "1 m -> [s]", "-1.5 m -> [m, cm, mm]", "unit_list([m], 1 m)", "1e30 s -> [year, day, h, min, s]", "DMS(inf deg)", "DM(NaN deg)", "feet_and_inches(inf m)", "pounds_and_ounces(NaN kg)",
+    "diff(x^2, x)", "dsolve_runge_kutta(f, 0, 1, 0, 1)", "fixed_point(cos, 1, 0)", "bisection(sin, 3, 4, 0, 0)", "quadratic_equation(0, 0, 0)", "cubic_equation(0, 0, 0, 0)", "random()", "rand_int(1, 0)", "rand_norm(0, -1)", "rand_bernoulli(2)",
+    "struct A { a: A }", "struct A {}", "struct A { a: Scalar, a: Scalar }", "A { }", "let ans = 1", "let _ = 1", "fn ans() = 1", "unit ans", "dimension ans", "let m = 1", "fn m() = 1", "fn sin(x) = x", "let sin = 1", "unit sin", "unit m",
+    "fn f(x) = f(x)", "fn f() = f", "fn f(f) = f(f)", "fn f<D>(x: D) -> D^2 = x", "fn f<D: Dim>(x: D) -> D^(1/0) = x", "fn f(x: Length^(1/0)) = x", "let x: Length^(2^200) = 1", "let x: Length^1e30 = 1", "let x: 1 / 0 = 1", "let x: Scalar^inf = 1",
+    "dimension D = D", "dimension D = D^2", "unit u: U", "unit u = u", "@metric_prefixes unit", "@aliases() unit u", "@aliases(m) unit u2", "@name(\"\") unit u", "@url() fn f() = 1", "@abbreviation(m) let x = 1", "@example(\"1/0\") fn f() = 1",
+    "use", "use a::", "use ::a", "use prelude::prelude", "use core::scalar; use core::scalar", "use extra::astronomy\nuse extra::astronomy", "use units::currencies\n1 EUR -> USD", "1 EUR", "1 XBT", "1 EUR -> JPY", "use units::nonexistent",
+    "1 where", "x where x = x", "x where x = 1 and y", "where x = 1", "f(x) where f = sin", "1 per", "per 1", "to m", "1 to", "if", "if 1", "if true then", "if true then 1 else", "then", "else 1", "true && 1", "!1", "!\"a\"", "-\"a\"", "\"a\"!", "\"a\" + \"b\"", "\"a\" * 2", "[1] + [1]", "[1, \"a\"]", "[[1], 1]", "[sin]", "[sin, cos]", "[m, s]",
+    "1.a", "1.0.0", "a.b.c", "\"a\".b", "[1].a", "sin.a", "m.a", "(1).a", "1 .a", "x.0", "1 m2", "1 m²³", "1 m⁻", "m⁰", "m⁻⁰", "m⁺¹", "2²²", "²", "m^-", "m^+2", "m^--2", "m^-(-2)", "2^-2^-2", "2**", "**2", "2***2",
+    "?", "? + 1", "fn f() = ?", "let x: ? = 1", "1 ?", "??", "…", "...", "1 ... 2", "#", "# x", "1 # x\n+ 2", "\n\n\n", " ", "\t", "\r", "\r\n1", "1\r\n2", "1;2", "1\u{0}2", "\u{feff}1", "1\u{a0}m", "1\u{2009}m", "1\u{200b}m", "\u{202e}1 + 2", "\"\u{202e}\"", "\"\\\"", "\"\\q\"", "\"{\"", "\"}\"", "\"{}\"", "\"{{}\"", "\"{1\"", "\"{1:}\"", "\"{1:>}\"", "\"{\"{1}\"}\"", "\"{\"", "\"\n\"", "\"", "\"\"\"",
+];
 const NUMBERS: &[&str] = &["0", "1", "2", "3", "7", "10", "0.5", "1.5", ".25", "1e3", "1e-3", "2.5e10", "1e300", "1e-300", "1e308", "1e309", "255", "256", "65535", "65536", "1_000", "0x10", "0b101", "0o17",
     "9007199254740993", "123456789012345678901234567890", "0.1", "1e30", "-0", "4294967296", "18446744073709551616", "170141183460469231731687303715884105728"];
 const PUNCT: &[&str] = &["(", ")", "[", "]", "{", "}", ",", ":", ";", "=", "+", "-", "*", "/", "^", "**", "!", "->", "→", "<", ">", "<=", ">=", "==", "!=", "&&", "||", "|>", ".", "..", "\"", "{", "}", "#", "@", "?", "²", "³", "⁻¹", "×", "÷", "·", "≤", "≥", "≠",
@@ -615,7 +640,13 @@ impl Gen {
             11 => format!("if {} then {} else {}", self.cond(d - 1), self.scalar(d - 1), self.scalar(d - 1)),
             12 => format!("({}) / ({})", self.length(d - 1), self.length(d - 1)),
             13 => format!("{} |> {}", self.scalar(d - 1), self.pick(SCALAR_FNS)),
-            14 => format!("len({})", self.list(d - 1)),
+            14 => match self.rng.below(4) {
+                0 => format!("len({})", self.list(d - 1)),
+                // a callee that is an expression (conditional / parenthesised), with unit identifiers inside
+                1 => format!("(if {} then {} else {})({})", self.cond(d - 1), self.pick(SCALAR_FNS), self.pick(SCALAR_FNS), self.scalar(d - 1)),
+                2 => format!("(if {} == {} then {} else {})({})", self.pick(UNITS), self.pick(UNITS), self.pick(SCALAR_FNS), self.pick(SCALAR_FNS), self.scalar(d - 1)),
+                _ => format!("({})({})", self.pick(SCALAR_FNS), self.scalar(d - 1)),
+            },
             _ => format!("{} {}", self.scalar(d - 1), self.pick(&["percent", "%", "deg", "dozen", "million", "ppm"])),
         }
     }
@@ -709,7 +740,7 @@ impl Gen {
             13 => format!("dimension Zd{}", if self.rng.chance(1, 2) { " = Length^2 / Time" } else { "" }),
             14 => format!("({}) -> {}", self.any(d), self.pick(UNITS)),
             15 => format!("struct Zs {{ a: Length, b: Scalar }}\nZs {{ a: {}, b: {} }}.{}", self.length(d), self.scalar(d), self.pick(&["a", "b", "c"])),
-            16 => format!("{} where {} = {}", self.any(d), self.var(), self.any(d)),
+            16 => { let v = self.var(); format!("fn zf{}(x) = {} * {} where {} = {}", self.rng.below(2), v, self.scalar(d), v, self.any(d)) }
             _ => self.any(d),
         }
     }
@@ -917,6 +948,13 @@ fn generate(args: &[String]) -> i32 {
     // every corpus file once, unchanged (the mutations' baseline), then the random classes
     let whole: Vec<(String, String)> = g.corpus.clone();
     let mut k = 0u64;
+    for t in SEEDS {
+        if k >= n { break; }
+        for sess in ["prelude", "fresh"] {
+            out.line(&json!({"class": "seed", "sess": sess, "text": t}));
+            k += 1;
+        }
+    }
     for (p, t) in &whole {
         if k >= n { break; }
         out.line(&json!({"class": "corpus", "sess": "prelude", "text": t, "src": p, "tmo": 20000}));
